@@ -6,34 +6,39 @@ Import ListNotations.
 Open Scope N_scope.
 Ltac Zify.zify_post_hook ::= Z.div_mod_to_equations.
 
-Lemma dec_tree_robust : forall fuel id, robust (dec_tree fuel id).
+Lemma dtree_robust : forall fuel dep id, robust (dtree fuel dep id).
 Proof.
-  induction fuel as [|f IH]; intros id; cbn [dec_tree]; [constructor|].
+  induction fuel as [|f IH]; intros dep id; cbn [dtree]; [constructor|].
   repeat match goal with |- robust (if ?c then _ else _) => destruct c end; rb.
 Qed.
+#[export] Hint Resolve dtree_robust : rb.
+Lemma dec_tree_robust fuel id : robust (dec_tree fuel id).
+Proof. apply dtree_robust. Qed.
 #[export] Hint Resolve dec_tree_robust : rb.
 
-Lemma tree_byte f : dec_tree (S f) idByte = (v <- rd_i8 ;; Ret (TByte v)). Proof. reflexivity. Qed.
-Lemma tree_short f : dec_tree (S f) idShort = (v <- rd_i16 ;; Ret (TShort v)). Proof. reflexivity. Qed.
-Lemma tree_int f : dec_tree (S f) idInt = (v <- rd_i32 ;; Ret (TInt v)). Proof. reflexivity. Qed.
-Lemma tree_long f : dec_tree (S f) idLong = (v <- rd_i64 ;; Ret (TLong v)). Proof. reflexivity. Qed.
-Lemma tree_float f : dec_tree (S f) idFloat = (v <- rd_i32 ;; Ret (TFloat (u32 v))). Proof. reflexivity. Qed.
-Lemma tree_double f : dec_tree (S f) idDouble = (v <- rd_i64 ;; Ret (TDouble (u64 v))). Proof. reflexivity. Qed.
-Lemma tree_bytearray f : dec_tree (S f) idByteArray =
+Lemma tree_byte f dep : dtree (S f) dep idByte = (v <- rd_i8 ;; Ret (TByte v)). Proof. reflexivity. Qed.
+Lemma tree_short f dep : dtree (S f) dep idShort = (v <- rd_i16 ;; Ret (TShort v)). Proof. reflexivity. Qed.
+Lemma tree_int f dep : dtree (S f) dep idInt = (v <- rd_i32 ;; Ret (TInt v)). Proof. reflexivity. Qed.
+Lemma tree_long f dep : dtree (S f) dep idLong = (v <- rd_i64 ;; Ret (TLong v)). Proof. reflexivity. Qed.
+Lemma tree_float f dep : dtree (S f) dep idFloat = (v <- rd_i32 ;; Ret (TFloat (u32 v))). Proof. reflexivity. Qed.
+Lemma tree_double f dep : dtree (S f) dep idDouble = (v <- rd_i64 ;; Ret (TDouble (u64 v))). Proof. reflexivity. Qed.
+Lemma tree_bytearray f dep : dtree (S f) dep idByteArray =
   (n <- rd_i32 ;; if (n <? 0)%Z then Fail eNeg else ReadFull (Z.to_N n) (fun bs => Ret (TByteArray bs))).
 Proof. reflexivity. Qed.
-Lemma tree_string f : dec_tree (S f) idString = (s <- rd_string ;; Ret (TString s)). Proof. reflexivity. Qed.
-Lemma tree_list f : dec_tree (S f) idList =
-  (et <- rd_u8 ;; n <- rd_i32 ;;
-   if (n <? 0)%Z then Fail eNeg else l <- rep f (Z.to_N n) (dec_tree f et) [] ;; Ret (TList et l)).
+Lemma tree_string f dep : dtree (S f) dep idString = (s <- rd_string ;; Ret (TString s)). Proof. reflexivity. Qed.
+Lemma tree_list f dep : dtree (S f) dep idList =
+  (if dep =? 0 then Fail eDepth else
+   et <- rd_u8 ;; n <- rd_i32 ;;
+   if (n <? 0)%Z then Fail eNeg else l <- rep f (Z.to_N n) (dtree f (dep - 1) et) [] ;; Ret (TList et l)).
 Proof. reflexivity. Qed.
-Lemma tree_compound f : dec_tree (S f) idCompound =
-  (m <- comp_loop f rd_tag (dec_tree f) (fun k v m => (k, v) :: m) [] ;; Ret (TCompound (rev_append m []))).
+Lemma tree_compound f dep : dtree (S f) dep idCompound =
+  (if dep =? 0 then Fail eDepth else
+   m <- comp_loop f rd_tag (dtree f (dep - 1)) (fun k v m => (k, v) :: m) [] ;; Ret (TCompound (rev_append m []))).
 Proof. reflexivity. Qed.
-Lemma tree_intarray f : dec_tree (S f) idIntArray =
+Lemma tree_intarray f dep : dtree (S f) dep idIntArray =
   (n <- rd_i32 ;; if (n <? 0)%Z then Fail eNeg else l <- rep f (Z.to_N n) rd_i32 [] ;; Ret (TIntArray l)).
 Proof. reflexivity. Qed.
-Lemma tree_longarray f : dec_tree (S f) idLongArray =
+Lemma tree_longarray f dep : dtree (S f) dep idLongArray =
   (n <- rd_i32 ;; if (n <? 0)%Z then Fail eNeg else l <- rep f (Z.to_N n) rd_i64 [] ;; Ret (TLongArray l)).
 Proof. reflexivity. Qed.
 
@@ -44,10 +49,10 @@ Proof.
   rewrite IH, <- app_assoc. reflexivity.
 Qed.
 
-Theorem dec_tree_conforms : forall t, wf t -> forall fuel rest, (length (payload t) < fuel)%nat ->
-  run_flat (dec_tree fuel (tag_id t)) (payload t ++ rest) = FOk t rest.
+Theorem dtree_conforms : forall t, wf t -> forall fuel dep rest, (length (payload t) < fuel)%nat -> depth t <= dep ->
+  run_flat (dtree fuel dep (tag_id t)) (payload t ++ rest) = FOk t rest.
 Proof.
-  induction t as [v|v|v|v|b|b|l|s|eid l IH|l IH|l|l] using tag_ind'; intros W fuel rest Hf;
+  induction t as [v|v|v|v|b|b|l|s|eid l IH|l IH|l|l] using tag_ind'; intros W fuel dep rest Hf Hd;
     (destruct fuel as [|f]; [lia|]); cbn [tag_id payload].
   - rewrite tree_byte, run_flat_bind by auto with rb. apply in_swb_spec in W. now rewrite rd_i8_val.
   - rewrite tree_short, run_flat_bind by auto with rb. apply in_swb_spec in W. now rewrite rd_i16_val.
@@ -63,25 +68,27 @@ Proof.
   - apply name_ok_spec in W. destruct W as [_ W].
     rewrite tree_string, run_flat_bind by auto with rb. rewrite <- app_assoc, rd_string_spec by exact W. reflexivity.
   - apply wf_list in W. destruct W as (He & Hne & Hl & Hall).
-    rewrite tree_list, run_flat_bind by auto with rb. cbn [app]. rewrite run_rd_u8.
+    rewrite tree_list. destruct (N.eqb_spec dep 0) as [E0|E0]; [cbn [depth] in Hd; lia|].
+    rewrite run_flat_bind by auto with rb. cbn [app]. rewrite run_rd_u8.
     rewrite run_flat_bind by auto with rb. rewrite <- app_assoc, rd_i32_len by exact Hl.
     rewrite ltb_ofN, N2Z.id. rewrite run_flat_bind by auto with rb.
     cbn [payload length] in Hf. rewrite app_length, be_length in Hf.
-    rewrite (rep_spec (dec_tree f eid) payload (fun x => x)).
+    rewrite (rep_spec (dtree f (dep - 1) eid) payload (fun x => x)).
     + cbn [rev app]. rewrite map_id. reflexivity.
     + auto with rb.
     + rewrite Forall_forall in *. intros x Hx rest'. destruct (Hall x Hx) as [<- Wx].
-      apply IH; auto. pose proof (flat_map_length_in payload l x Hx). lia.
+      apply IH; auto; [pose proof (flat_map_length_in payload l x Hx); lia|pose proof (depth_list_in (tag_id x) l x Hx); lia].
     + pose proof (flat_map_length_ge payload l payload_pos). lia.
   - apply wf_compound in W.
-    rewrite tree_compound, run_flat_bind by auto with rb.
+    rewrite tree_compound. destruct (N.eqb_spec dep 0) as [E0|E0]; [cbn [depth] in Hd; lia|].
+    rewrite run_flat_bind by auto with rb.
     cbn [payload length] in Hf. rewrite app_length in Hf. cbn [length] in Hf.
     change (fun kv : list N * tag => tag_id (snd kv) :: be 2 (lenN (fst kv)) ++ fst kv ++ payload (snd kv)) with entry_enc in *.
-    rewrite (comp_spec rd_tag (dec_tree f) _ (fun x => x) rd_tag_ok).
+    rewrite (comp_spec rd_tag (dtree f (dep - 1)) _ (fun x => x) rd_tag_ok).
     + rewrite fold_left_cons_pair. cbn [run_flat]. rewrite rev_append_rev, !app_nil_r, rev_involutive. reflexivity.
     + auto with rb.
     + rewrite Forall_forall in *. intros kv Hkv. destruct (W kv Hkv) as [Hk Wv]. split; [exact Hk|].
-      intros rest'. apply IH; auto.
+      intros rest'. apply IH; auto; [|pose proof (depth_comp_in l kv Hkv); lia].
       pose proof (flat_map_length_in entry_enc l kv Hkv) as L. unfold entry_enc at 1 in L.
       cbn [length] in L. rewrite !app_length in L. lia.
     + pose proof (flat_map_length_k entry_enc l 4 entry_len4). lia.
@@ -107,6 +114,10 @@ Proof.
       pose proof (flat_map_length_k (fun z => be 8 (u64 z)) l 8 H8). lia.
 Qed.
 
+Theorem dec_tree_conforms : forall t, wf t -> nest_ok t -> forall fuel rest, (length (payload t) < fuel)%nat ->
+  run_flat (dec_tree fuel (tag_id t)) (payload t ++ rest) = FOk t rest.
+Proof. intros t W Hn fuel rest Hf. now apply dtree_conforms. Qed.
+
 (* Decoder.Decode on a whole document followed by anything *)
 Lemma doc_length f name t : (length (payload t) < S (length (doc f name t)))%nat.
 Proof.
@@ -114,19 +125,126 @@ Proof.
 Qed.
 
 Theorem decode_tree_doc f name t rest fuel :
-  wf t -> name_ok name = true -> (length (payload t) < fuel)%nat ->
+  wf t -> nest_ok t -> name_ok name = true -> (length (payload t) < fuel)%nat ->
   run_flat (Decode f (dec_tree fuel)) (doc f name t ++ rest) = FOk (root_name f name, t) rest.
 Proof.
-  intros W Hn Hf. apply Decode_doc; auto with rb. now apply dec_tree_conforms.
+  intros W Hd Hn Hf. apply Decode_doc; auto with rb. now apply dec_tree_conforms.
 Qed.
 
 (* unmarshal on the document of a well-formed tree: exactly the kind switch on the tree *)
 Theorem unmarshal_doc f name t ty :
-  wf t -> name_ok name = true ->
+  wf t -> nest_ok t -> name_ok name = true ->
   unmarshal f ty (doc f name t) =
   match unm t ty with UOk v => DOk (root_name f name) v [] | UErr => DErr | UOut => DOut end.
 Proof.
-  intros W Hn. unfold unmarshal.
-  pose proof (decode_tree_doc f name t [] (S (length (doc f name t))) W Hn (doc_length f name t)) as H.
+  intros W Hd Hn. unfold unmarshal.
+  pose proof (decode_tree_doc f name t [] (S (length (doc f name t))) W Hd Hn (doc_length f name t)) as H.
   rewrite app_nil_r in H. rewrite H. reflexivity.
+Qed.
+
+(* ---------- dynbt.Value (with the element id of lists) ---------- *)
+Lemma ddyn2_robust : forall fuel dep id, robust (ddyn2 fuel dep id).
+Proof.
+  induction fuel as [|f IH]; intros dep id; cbn [ddyn2]; [constructor|].
+  repeat match goal with |- robust (if ?c then _ else _) => destruct c end; rb.
+Qed.
+#[export] Hint Resolve ddyn2_robust : rb.
+Lemma dec_dyn2_robust fuel id : robust (dec_dyn2 fuel id).
+Proof. apply ddyn2_robust. Qed.
+#[export] Hint Resolve dec_dyn2_robust : rb.
+
+Lemma dyn2_byte f dep : ddyn2 (S f) dep idByte = (b <- rd_u8 ;; Ret (D2Data idByte [b])). Proof. reflexivity. Qed.
+Lemma dyn2_short f dep : ddyn2 (S f) dep idShort = ReadFull 2 (fun bs => Ret (D2Data idShort bs)). Proof. reflexivity. Qed.
+Lemma dyn2_int f dep : ddyn2 (S f) dep idInt = ReadFull 4 (fun bs => Ret (D2Data idInt bs)). Proof. reflexivity. Qed.
+Lemma dyn2_float f dep : ddyn2 (S f) dep idFloat = ReadFull 4 (fun bs => Ret (D2Data idFloat bs)). Proof. reflexivity. Qed.
+Lemma dyn2_long f dep : ddyn2 (S f) dep idLong = ReadFull 8 (fun bs => Ret (D2Data idLong bs)). Proof. reflexivity. Qed.
+Lemma dyn2_double f dep : ddyn2 (S f) dep idDouble = ReadFull 8 (fun bs => Ret (D2Data idDouble bs)). Proof. reflexivity. Qed.
+Lemma dyn2_bytearray f dep : ddyn2 (S f) dep idByteArray =
+  ReadFull 4 (fun h => let n := sx32 (unbe h) in
+    if (n <? 0)%Z then Fail eNeg else ReadFull (Z.to_N n) (fun bs => Ret (D2Data idByteArray (h ++ bs)))).
+Proof. reflexivity. Qed.
+Lemma dyn2_string f dep : ddyn2 (S f) dep idString =
+  ReadFull 2 (fun h => let n := sx16 (unbe h) in
+    if (n <? 0)%Z then Fail eNeg else ReadFull (Z.to_N n) (fun bs => Ret (D2Data idString (h ++ bs)))).
+Proof. reflexivity. Qed.
+Lemma dyn2_intarray f dep : ddyn2 (S f) dep idIntArray =
+  ReadFull 4 (fun h => let n := sx32 (unbe h) in
+    if (n <? 0)%Z then Fail eNeg else ReadFull (4 * Z.to_N n) (fun bs => Ret (D2Data idIntArray (h ++ bs)))).
+Proof. reflexivity. Qed.
+Lemma dyn2_longarray f dep : ddyn2 (S f) dep idLongArray =
+  ReadFull 4 (fun h => let n := sx32 (unbe h) in
+    if (n <? 0)%Z then Fail eNeg else ReadFull (8 * Z.to_N n) (fun bs => Ret (D2Data idLongArray (h ++ bs)))).
+Proof. reflexivity. Qed.
+Lemma dyn2_list f dep : ddyn2 (S f) dep idList =
+  (if dep =? 0 then Fail eDepth else
+   t <- rd_u8 ;; n <- rd_i32 ;;
+   if (n <? 0)%Z then Fail eNeg
+   else if (t =? idEnd) && (0 <? n)%Z then Fail eEND
+   else l <- rep f (Z.to_N n) (ddyn2 f (dep - 1) t) [] ;; Ret (D2List t l)).
+Proof. reflexivity. Qed.
+Lemma dyn2_compound f dep : ddyn2 (S f) dep idCompound =
+  (if dep =? 0 then Fail eDepth else
+   m <- comp_loop f rd_tag_dyn (ddyn2 f (dep - 1)) (fun k v m => (k, v) :: m) [] ;; Ret (D2Comp (rev_append m []))).
+Proof. reflexivity. Qed.
+
+Theorem ddyn2_conforms : forall t, wf t -> forall fuel dep rest, (length (payload t) < fuel)%nat -> depth t <= dep ->
+  run_flat (ddyn2 fuel dep (tag_id t)) (payload t ++ rest) = FOk (dyn2_of t) rest.
+Proof.
+  induction t as [v|v|v|v|b|b|l|s|eid l IH|l IH|l|l] using tag_ind'; intros W fuel dep rest Hf Hd;
+    (destruct fuel as [|f]; [lia|]); cbn [tag_id payload dyn2_of].
+  - rewrite dyn2_byte, run_flat_bind by auto with rb. rewrite be1. reflexivity.
+  - rewrite dyn2_short, run_ReadFull_app by apply lenN_be. reflexivity.
+  - rewrite dyn2_int, run_ReadFull_app by apply lenN_be. reflexivity.
+  - rewrite dyn2_long, run_ReadFull_app by apply lenN_be. reflexivity.
+  - rewrite dyn2_float, run_ReadFull_app by apply lenN_be. reflexivity.
+  - rewrite dyn2_double, run_ReadFull_app by apply lenN_be. reflexivity.
+  - wf_and W. destruct W as [_ W]. apply N.ltb_lt in W.
+    rewrite dyn2_bytearray. rewrite <- app_assoc, run_ReadFull_app by apply lenN_be.
+    cbv zeta. rewrite sx32_len by exact W. rewrite ltb_ofN, N2Z.id.
+    rewrite run_ReadFull_app by reflexivity. reflexivity.
+  - apply name_ok_spec in W. destruct W as [_ W].
+    rewrite dyn2_string. rewrite <- app_assoc, run_ReadFull_app by apply lenN_be.
+    cbv zeta. rewrite sx16_len by exact W. rewrite ltb_ofN, N2Z.id.
+    rewrite run_ReadFull_app by reflexivity. reflexivity.
+  - apply wf_list in W. destruct W as (He & Hne & Hl & Hall).
+    rewrite dyn2_list. destruct (N.eqb_spec dep 0) as [E0|E0]; [cbn [depth] in Hd; lia|].
+    rewrite run_flat_bind by auto with rb. cbn [app]. rewrite run_rd_u8.
+    rewrite run_flat_bind by auto with rb. rewrite <- app_assoc, rd_i32_len by exact Hl.
+    rewrite ltb_ofN, N2Z.id.
+    assert ((eid =? idEnd) && (0 <? Z.of_N (lenN l))%Z = false) as ->.
+    { destruct l as [|x l']; [apply andb_false_r|].
+      assert (1 <= eid) by (apply Hne; discriminate).
+      destruct (N.eqb_spec eid idEnd) as [E|_]; [change idEnd with 0 in E; lia|reflexivity]. }
+    rewrite run_flat_bind by auto with rb.
+    cbn [payload length] in Hf. rewrite app_length, be_length in Hf.
+    rewrite (rep_spec (ddyn2 f (dep - 1) eid) payload dyn2_of).
+    + reflexivity.
+    + auto with rb.
+    + rewrite Forall_forall in *. intros x Hx rest'. destruct (Hall x Hx) as [<- Wx].
+      apply IH; auto; [pose proof (flat_map_length_in payload l x Hx); lia|pose proof (depth_list_in (tag_id x) l x Hx); lia].
+    + pose proof (flat_map_length_ge payload l payload_pos). lia.
+  - apply wf_compound in W.
+    rewrite dyn2_compound. destruct (N.eqb_spec dep 0) as [E0|E0]; [cbn [depth] in Hd; lia|].
+    rewrite run_flat_bind by auto with rb.
+    cbn [payload length] in Hf. rewrite app_length in Hf. cbn [length] in Hf.
+    change (fun kv : list N * tag => tag_id (snd kv) :: be 2 (lenN (fst kv)) ++ fst kv ++ payload (snd kv)) with entry_enc in *.
+    rewrite (comp_spec rd_tag_dyn (ddyn2 f (dep - 1)) _ dyn2_of rd_tag_dyn_ok).
+    + rewrite (fold_left_cons_rev (fun kv => (fst kv, dyn2_of (snd kv)))).
+      cbn [run_flat]. rewrite rev_append_rev, !app_nil_r, rev_involutive. reflexivity.
+    + auto with rb.
+    + rewrite Forall_forall in *. intros kv Hkv. destruct (W kv Hkv) as [Hk Wv]. split; [exact Hk|].
+      intros rest'. apply IH; auto; [|pose proof (depth_comp_in l kv Hkv); lia].
+      pose proof (flat_map_length_in entry_enc l kv Hkv) as L. unfold entry_enc at 1 in L.
+      cbn [length] in L. rewrite !app_length in L. lia.
+    + pose proof (flat_map_length_k entry_enc l 4 entry_len4). lia.
+  - wf_and W. destruct W as [Wv W]. apply N.ltb_lt in W.
+    rewrite dyn2_intarray. rewrite <- app_assoc, run_ReadFull_app by apply lenN_be.
+    cbv zeta. rewrite sx32_len by exact W. rewrite ltb_ofN, N2Z.id.
+    rewrite run_ReadFull_app; [reflexivity|].
+    apply lenN_flat_map_k. intros x. apply lenN_be.
+  - wf_and W. destruct W as [Wv W]. apply N.ltb_lt in W.
+    rewrite dyn2_longarray. rewrite <- app_assoc, run_ReadFull_app by apply lenN_be.
+    cbv zeta. rewrite sx32_len by exact W. rewrite ltb_ofN, N2Z.id.
+    rewrite run_ReadFull_app; [reflexivity|].
+    apply lenN_flat_map_k. intros x. apply lenN_be.
 Qed.
